@@ -15,13 +15,13 @@ CHECKS = {
          "Structural necessary conditions, decided for every function of the four generated monad packages: the definitional reference graph has no branch-free cycle (a circular definition diverges on all-success inputs), every parameter of every combinator is used, and StateT bodies never reuse a state that was fed to a run (right identity of StateT); a unit function (Pure/Some/Success/Right/Done) never converts its type-parameter argument to an interface, so it cannot treat nil payloads differently (SSA value flow through moves, closures and static calls). A violation names the cycle / the parameter / the conversion.",
          "§4 C01", "the three laws as value equalities; Seq/List/Iterator/Eval/fn0/fn1 instances"),
  "C02": ("structured success-test analysis (continuation/handler classification by type), supplier-deferral rule, recover-handler rule (AST, go/types)",
-         "Call-placement clauses decided for every success test of a Try/Option/Either operand in the root package, the monad packages and the folds: no continuation and no iterator pull on the failure side, no handler on the success side, continuations receive a value extracted from the tested operand, a fold stops at the first failed step, short-circuiting functions return the operand itself or a failure built from it alone, recover-style functions return successes untouched; supplier parameters are only invoked inside deferred literals or under a test; the five panic-capturing functions register a recover handler first, which produces a failure carrying the recovered value only when it is non-nil; effect-order summaries (R-EFFORDER): every branch-free or test-guarded combinator consults its monadic operands in declaration order, and the methods of one builder type agree on the order of the receiver's fields and consult them before their arguments.",
+         "Call-placement clauses decided for every success test of a Try/Option/Either operand in the root package, the monad packages and the folds: no continuation and no iterator pull on the failure side, no handler on the success side, continuations receive a value extracted from the tested operand, a fold stops at the first failed step, short-circuiting functions return the operand itself or a failure built from it alone, recover-style functions return successes untouched; supplier parameters are only invoked inside deferred literals or under a test; the five panic-capturing functions register a recover handler first, which produces a failure carrying the recovered value only when it is non-nil; effect-order summaries (R-EFFORDER): every branch-free or test-guarded combinator consults its monadic operands in declaration order, and the methods of one builder type agree on the order of the receiver's fields and consult them before their arguments; in a fold over a cursor every path from a monadic step result to the next consultation of the cursor passes a test of that result (R-FOLDSTOP).",
          "§4 C02", "invocation counts and global left-to-right order across a whole nested generated expression (effect-order summary not built)"),
  "C03": ("path-sensitive nil-fact dataflow on SSA over Map/Set/immutable types, discarded-update rule, exhaustiveness of node type switches",
          "Necessary conditions on the wrappers and on result threading (the trie arithmetic itself is not decided): every call through Map.Base / Set.set / Set.getEmpty / hamt.root / mapBuilder.m is dominated by its nil test (zero value behaves as empty); no persistent update result (Updated/Removed/Incl/Excl/node set/delete …) is discarded outside explicit in-place mode; every type switch over trie nodes has a default, covers all node kinds, or (leaf-only) covers every kind without children; the iterator's depth-indexed stack has a slot for every level a 32-bit hash can produce; all node kinds cut the hash fragment with one mask and descend with one level increment, and never consult a child at its parent's level (R-FRAG); a node built for a deeper level is never returned as this level's node unless proven a leaf (R-LEVEL); every entry-adding event of set is preceded by *resized = true on every feasible path (R-RESIZED).",
          "§4 C03", "trie arithmetic for every history and hasher (bitmap/popcount indices, node conversions, collision nodes, the resized flag on delete)"),
  "C04": ("field-sensitive points-to analysis on SSA with interprocedural write/return/invoke summaries and bool-flag guards (E1), builder typestate rule",
-         "Proves the stronger 'never writes foreign memory' for every exported function and method of the library outside the mutable surface: no store, append, copy, sort, map update or callee (through interface joins, call-backs and fold-threaded accumulators) writes an object reachable from a parameter, a global or unknown memory; writes guarded by the trie's `mutable` flag count only where true can reach them; builder methods that publish the in-place trie give it up.",
+         "Proves the stronger 'never writes foreign memory' for every exported function and method of the library outside the mutable surface: no store, append, copy, sort, map update or callee (through interface joins, call-backs and fold-threaded accumulators) writes an object reachable from a parameter, a global or unknown memory; writes guarded by the trie's `mutable` flag count only where true can reach them; builder methods that publish the in-place trie give it up, through a pointer receiver.",
          "§4 C04", "deep-snapshot equality over branching histories as such; user call-backs and user implementations of fp.List/MapBase are assumed not to write"),
  "C05": ("syntactic protocol rules over the status type switches (CAS-only, final, retry, register, deliver), E1 snapshot immutability, nil-fact dataflow, atomic-cell access rule",
          "Structural conditions without which some interleaving breaks single assignment / exactly-once delivery: the status cell changes only by CompareAndSwap against the pointer loaded in the same attempt; the completed case never writes; every lost CAS is retried; every case of a registration uses the call-back (invokes it with the completed value or swaps in a value built from the old list and the call-back); the completing CAS returns the captured list and Complete calls every element; no Promise/Future method writes memory it did not allocate (published listener slices are immutable); zero Promise/Future is guarded; the atomic cell is touched only through sync/atomic; between (re)loading the status pointer and swapping against it the status is decoded from that same pointer.",
@@ -30,16 +30,16 @@ CHECKS = {
          "For every promise created by a combinator that returns the derived future (19 sites): every path of the creating function completes the promise or registers a literal every path of which completes it or registers, recursively, one that does; Apply/Apply2 run the user function under a deferred recover that fails the promise with the panic value; nested subscriptions on two Future operands follow declaration order, so a failed earlier operand is reported without waiting for a later one (R-SUBORDER).",
          "§4 C06", "value equality with the Try-level evaluation, 'never earlier', positional order of Sequence/Traverse"),
  "C09": ("mirrored-accessor-path rule, instance-parameter relevance, hash/eq component-subset rule, hash determinism deny-list (AST, go/types)",
-         "Structural conditions of component-wise equality and of hash/eq agreement: every component Eqv/Less/Compare call in eq, hash and ord applies the same accessor path to the two different operands; every instance parameter is used; for every hash.New(E, h) the instances consulted by h are a subset of those E is built from; hash functions use no unsafe/reflect/uintptr/%p/float bit patterns/map iteration/time/rand; a container equality returns true only where equal sizes are established; an Eq over Go maps looks the other map up with the comma-ok form.",
+         "Structural conditions of component-wise equality and of hash/eq agreement: every component Eqv/Less/Compare call in eq, hash and ord applies the same accessor path to the two different operands; every instance parameter is used; for every hash.New(E, h) the instances consulted by h are a subset of those E is built from; hash functions (including those of package-level instances) use no unsafe/reflect/uintptr/%p/float bit patterns/map iteration/time/rand and no package-level state shared between callers; a container equality returns true only where equal sizes are established; an Eq over Go maps looks the other map up with the comma-ok form.",
          "§4 C09", "reflexivity/symmetry/transitivity and hash agreement as statements over all values"),
  "C10": ("one-sided-comparison rule (R-LEX), mirrored accessor paths, sort.Interface shape check (AST, go/types)",
-         "Structural necessary conditions of a strict total order / ordered permutation: every component Less test that falls through to further components is followed by the mirrored test; component calls use the same accessor path on both operands; every in-module sort.Interface keeps index order, swaps exactly i and j and reports len of the same slice; Compare results are examined by sign only; less functions are strict (no <=, no negated less); binary instances never exchange their operands; R-LEX also covers direct calls of a LessFunc value.",
+         "Structural necessary conditions of a strict total order / ordered permutation: every component Less test that falls through to further components is followed by the mirrored test; component calls use the same accessor path on both operands; every in-module sort.Interface keeps index order, swaps exactly i and j and reports len of the same slice; Compare results are examined by sign only; less functions are strict (no <=, no negated less); binary instances never exchange their operands; R-LEX also covers direct calls of a LessFunc value; a less-based Compare returns a non-zero constant only under the less test of the matching direction (R-TRICHOTOMY).",
          "§4 C10", "transitivity/totality of leaf instances; Min/Max semantics as values"),
  "C11": ("operator/identity table over resolved monoid constructions, named-instance binding, discarded-result and fold-argument-role rules (AST, go/types)",
          "Structural necessary conditions: a monoid built from a built-in operator and a constant uses that operator's identity and an associative operator; Sum/Product/Any/All/String are bound to +,*,||,&&,+; no pure typeclass result is discarded; Combine is called (accumulator, element) in left folds and (element, rest) in FoldRight call-backs; tuple/HCons/Dual combine the same component of both operands in the stated order; every fold over a monoid consults Empty; binary instances never exchange their operands; a Combine closure over pointer/map/slice operands never writes through them.",
          "§4 C11", "associativity of leaf combines, Endo/Merge* semantics as values"),
  "C12": ("loop-progress rule on go/cfg, eager-scan summaries (least fixpoint), read-ahead and deferred-self-reference rules (AST, go/types)",
-         "Termination/laziness clauses, decided for every cursor loop and every lazy constructor of the library: every `for x.HasNext()/NonEmpty()` loop advances x on every back-edge path; no Iterator/List-returning function scans a cursor parameter eagerly; no MakeIterator next() refills its cache by an unbounded scan after taking the element; List/Eval-returning functions refer to themselves only inside deferred literals; a counter bound is tested before the source is consulted; the two thunks of one MakeList never both consume the same iterator.",
+         "Termination/laziness clauses, decided for every cursor loop and every lazy constructor of the library: every `for x.HasNext()/NonEmpty()` loop advances x on every back-edge path; no Iterator/List-returning function scans a cursor parameter eagerly; no MakeIterator next() refills its cache by an unbounded scan after taking the element; List/Eval-returning functions refer to themselves only inside deferred literals; a counter bound is tested before the source is consulted; the two thunks of one MakeList never both consume the same iterator; a function that patches the closures of an fp.Iterator value re-establishes its cached concat decomposition.",
          "§4 C12", "element-for-element agreement with the Seq reference; pull counts"),
  "C13": ("map-order rule over the generator packages (loop-body classifier + consumer-chain classifier + frozen/conditional table), generated-file/directive cross-reference, format-error rule",
          "Two clauses of the property: (1) no enumeration of a hash-ordered collection in gombok/metafp/genfp/template_gen/monad_gen reaches emitted text in map order — every site has an order-insensitive body, a sorted or order-insensitive consumer, or a listed reason that is re-checked on every run where it is conditional; (2) every generated file is named by a directive the generators consume and every such directive's file exists; plus: a format.Source error is fatal; the sorted copy returned by the module's Sort functions is never discarded, and a variable still holding a hash-ordered sequence is not ranged over with an order-sensitive body.",
@@ -54,16 +54,16 @@ CHECKS = {
          "Run-once and trampoline clauses: memoisers run the computation only inside once.Do of a per-value sync.Once, first thing in the returned closure; Call/TailCall/MakeList hand their thunk to a memoiser and reference it nowhere else; building an Eval calls no function value eagerly; Run loops on Resume and neither calls back into Run/Get; FoldRight functions defer their self call through lazy.TailCall and never force their own recursive result (no nested trampoline); zero Eval is guarded.",
          "§4 C16", "equality with strict evaluation; stack depth as a number"),
  "C17": ("stale-state (affine use) rule on go/cfg over func(S)(Try,S) literals + parameter relevance",
-         "Structural necessary conditions for lawful state threading: in every StateT-shaped literal a state that was fed to a run is never used at a point reachable from that run (handlers, later steps and the returned state see the newest state); every parameter of the statet primitives and of the StateT methods is used; every path from one run to a later run passes a test of the first run's result, or the later step is built from that result (a failed step stops the program).",
+         "Structural necessary conditions for lawful state threading: in every StateT-shaped literal a state that was fed to a run is never used at a point reachable from that run (handlers, later steps and the returned state see the newest state); every parameter of the statet primitives and of the StateT methods is used; every path from one run to a later run passes a test of the first run's result, or the later step is built from that result (a failed step stops the program); a Try payload is reported as the state only behind the success edge of a test of that Try.",
          "§4 C17", "the state-monad equations as value equalities"),
  "C18": ("type-directed sanitising rule over clone closures + instance-parameter relevance (AST, go/types)",
-         "Structural necessary conditions for deep copies: every component-instance parameter of every clone combinator is used, and in every clone closure each use of the input is cloned through a component instance (Clone call, map with a Clone method value, range, nil/len test) — nothing of the input reaches the result uncloned.",
+         "Structural necessary conditions for deep copies: every component-instance parameter of every clone combinator is used, and in every clone closure each use of the input is cloned through a component instance (Clone call, map with a Clone method value, range, nil/len test) — nothing of the input reaches the result uncloned; a clone closure never returns the address of, or a reference held in, a captured variable (results are fresh per call).",
          "§4 C18", "structural equality incl. nil-vs-empty"),
  "C19": ("must-hold lock dataflow on SSA, E1 snapshot immutability, syntactic single-load and check-then-act rules",
-         "Structural conditions of linearizability: every Store on the snapshot cell happens under the map's mutex and every exit releases it; no method (nor a literal handed to copyOnWrite) writes a map loaded from the cell; read-only methods load the snapshot once; a method that reads outside the lock before copyOnWrite re-derives its decision from the literal's own parameter and returns nothing read after the critical section; the snapshot a published value derives from is read under the lock; every operation publishes at most one snapshot (no publishing call in a loop or twice on one path).",
+         "Structural conditions of linearizability: every Store on the snapshot cell happens under the map's mutex and every exit releases it; no method (nor a literal handed to copyOnWrite) writes a map loaded from the cell; read-only methods load the snapshot once; a method that reads outside the lock before copyOnWrite re-derives its decision from the literal's own parameter and returns nothing read after the critical section; the snapshot a published value derives from is read under the lock; every operation publishes at most one snapshot (no publishing call in a loop or twice on one path); the innermost condition deciding a Store, if it examines the cell, examines a value read under the lock.",
          "§4 C19", "linearizability over all interleavings"),
  "C20": ("path-sensitive nil-fact dataflow on SSA (R-NILGUARD), fabricated-return rule, must-hold lock dataflow on SSA",
-         "Three clauses: every call through Iterator.hasNext is dominated by its nil test (zero Iterator behaves as empty); no MakeIterator next() returns a fabricated zero value; in Duplicate every access to the shared queue/flag/source happens with the mutex held and every exit releases it; when hasNext keeps look-ahead state, next re-establishes it through hasNext or its refill helper; calls into the source iterator made under Duplicate's mutex are covered by a deferred Unlock (a panicking Next does not leave the mutex held).",
+         "Three clauses: every call through Iterator.hasNext is dominated by its nil test (zero Iterator behaves as empty); no MakeIterator next() returns a fabricated zero value; in Duplicate every access to the shared queue/flag/source happens with the mutex held and every exit releases it; when hasNext keeps look-ahead state, next re-establishes it through hasNext or its refill helper; calls into the source iterator made under Duplicate's mutex are covered by a deferred Unlock (a panicking Next does not leave the mutex held); when hasNext depends on state that next updates, next does not guard its pull with the source's HasNext alone.",
          "§4 C20", "HasNext idempotence of look-ahead combinators; pull-order independence of Duplicate/Span/Partition"),
 }
 
